@@ -29,7 +29,8 @@ CONSTANTS
   MaxSrc,     \* bound on source log index
   MaxCopies,  \* copies of one delta that may be in flight at once
   MaxSends,   \* how often one delta may be put on the channel in total (forward + retries + dups)
-  MaxTgtW     \* direct writes on the target
+  MaxTgtW,    \* direct writes on the target
+  MaxDeliver  \* deltas per target apply batch tried by Next (1..3)
 
 VARIABLES
   phase,      \* orchestrator phase: "snapshot" | "delta" | "switching" | "done"
@@ -223,7 +224,8 @@ Resupply ==
   /\ UNCHANGED <<phase, sidx, srcAcc, snapIdx, outbox, lastOut, fence, hasState, chan, sends, tDelta, tApplied, tw, ownS, ownT>>
 
 KindSeqs == {<<k>> : k \in Kinds} \cup {<<k1, k2>> : k1 \in Kinds, k2 \in Kinds}
-MsgSeqs  == {<<i>> : i \in Idx} \cup {<<i, j>> : i \in Idx, j \in Idx} \cup {<<i, j, k>> : i \in Idx, j \in Idx, k \in Idx}
+MsgSeqs  == {<<i>> : i \in Idx} \cup (IF MaxDeliver >= 2 THEN {<<i, j>> : i \in Idx, j \in Idx} ELSE {})
+              \cup (IF MaxDeliver >= 3 THEN {<<i, j, k>> : i \in Idx, j \in Idx, k \in Idx} ELSE {})
 
 Next ==
   \/ \E ks \in KindSeqs, lose \in Lose : SrcApply(ks, lose)
